@@ -246,6 +246,8 @@ def classify(trace_path, judge_path):
             advisory += 1
             continue
         kind = j.split(" ")[0]
+        if kind in ("DIFF", "SPEC", "INV", "ERR"):
+            cur.setdefault("events", []).append((kind, t, j))
         if kind in ("DIFF", "SPEC", "INV", "ERR") and (
                 cur["status"] == "ok" or (kind in ("SPEC", "INV") and cur["status"] == "DIFF")):
             # a specification/invariant failure later in the history outranks the model difference
@@ -254,6 +256,25 @@ def classify(trace_path, judge_path):
             cur["judge"] = j
             cur["at"] = i - cur["first"]
     return res, n_lines, advisory
+
+
+CURRENT_PID = [None]
+
+
+def effective(h, eng):
+    """status of a history once lines explained by listed known findings are set aside:
+    returns (status, line, judge); status KNOWN when nothing else fails"""
+    pid = CURRENT_PID[0]
+    evs = h.get("events", [])
+    if h["status"] == "ok" or not evs or pid is None:
+        return h["status"], h.get("line"), h.get("judge")
+    unmatched = [e for e in evs if not match_known(pid, f"{eng} {e[0]} {e[1][:200]} :: {e[2][:300]}")]
+    if not unmatched:
+        return "KNOWN", evs[0][1], evs[0][2]
+    if len(unmatched) == len(evs):
+        return h["status"], h.get("line"), h.get("judge")
+    pref = [e for e in unmatched if e[0] in ("SPEC", "INV")] or unmatched
+    return pref[0][0], pref[0][1], pref[0][2]
 
 
 def history_ops(ops_path, header):
@@ -288,7 +309,10 @@ def replay(exe, engine, header, ops, workdir, tag="r"):
     if not hs:
         return "ok", {}
     h = hs[-1]
-    return h["status"], h
+    st, line, jl = effective(h, engine)
+    h = dict(h)
+    h["status"], h["line"], h["judge"] = st, line, jl
+    return st, h
 
 
 def shrink(exe, engine, header, ops, want, workdir, budget=400):
@@ -395,6 +419,7 @@ def sample_lines(path, k=3, maxlen=300):
 
 def check(pid, tier, seed, replay_file=None):
     t0 = time.time()
+    CURRENT_PID[0] = pid
     plan = PROPS.plan(pid, tier, seed)
     os.makedirs(TMP, exist_ok=True)
     work = os.path.join(TMP, pid)
@@ -499,7 +524,17 @@ def check(pid, tier, seed, replay_file=None):
         if r["rc"] == 3:
             inconclusive.append(f"harness bug in job {job['name']}: {r['stderr'][-500:]}")
             continue
-        bad = [h for h in r["histories"] if h["status"] != "ok"]
+        bad = []
+        for h in r["histories"]:
+            if h["status"] == "ok":
+                continue
+            st, line, jl = effective(h, eng)
+            if st == "KNOWN":
+                k = match_known(pid, f"{eng} {h['events'][0][0]} {line[:200]} :: {jl[:300]}")
+                known_hits.append((k, f"{eng} {h['header']} {jl[:200]}"))
+                continue
+            h["status"], h["line"], h["judge"] = st, line, jl
+            bad.append(h)
         crashed = r["rc"] != 0
         exe_j = exe_rel if job["name"].endswith("-release") and exe_rel else exe
         handled = 0
